@@ -203,6 +203,8 @@ type Cluster struct {
 	observer        *SimNode
 	synthetic       bool
 	synthNears      [][2]string
+	syn             *synthState
+	synTxn          int
 	refDag          *refDag
 	refFame         *refFame
 	recordWrites    bool
